@@ -14,7 +14,7 @@ from .. import verify_engine as ve
 from ..tlc import MachineryFailure
 
 LEVEL = "model_checking"
-PYNAMES = ["'%s'" % k for k, _ in me.PY_KINDS]
+PYNAMES = ["'%s'" % k for k, _ in me.PY_KINDS] + ["'as_char_tuple'", "'as_bytes'"]
 
 
 def owns(o):
